@@ -435,6 +435,92 @@ Definition lib_session_app (fixed server : bool) (limit : Z) (apps : list (nat *
   let* (cr, codes) := read_loop_app (S (length inp)) 0 fixed apps (new_conn server limit inp) [] [] in
   Ok (rev' (snd cr), rev' (c_out (fst cr)), rev' codes).
 
+(* ---- partial application reads: messageReader.Read(b) call by call, len(b) = want (0 and 1
+   included), across frame boundaries, with readMaskPos.  The whole transport content is taken to be
+   in the bufio buffer already (the harness arranges that), so br.Read hands over
+   min(len(b), readRemaining, what is left of the stream). *)
+Record rd := mkRd { rc : conn; rpos : N (* readMaskPos *) }.
+
+Fixpoint take_upto (n : N) (b acc : bytes) : bytes * bytes :=
+  if (n =? 0)%N then (rev' acc, b)
+  else match b with [] => (rev' acc, []) | x :: t => take_upto (N.pred n) t (x :: acc) end.
+
+(* status of one Read: None = (n, nil); Some None = (0, io.EOF): message complete; Some (Some e) = error *)
+Fixpoint mr_read (fuel : nat) (fixed : bool) (want : N) (s : rd) : res (rd * bytes * option (option rerr)) :=
+  match fuel with
+  | O => Err 99
+  | S f =>
+    let c := rc s in
+    match c_err c with
+    | Some e => Ok (s, [], Some (Some (match e with EEof => EUeof | _ => e end)))
+    | None =>
+      if 0 <? c_rem c then
+        let n := N.min want (Z.to_N (c_rem c)) in
+        if (n =? 0)%N then Ok (s, [], None)                          (* len(b) = 0 *)
+        else match c_in c with
+             | [] => Ok (mkRd (set_err c (Some EUeof)) (rpos s), [], Some (Some EUeof))
+             | _ =>
+               let (p, rest) := take_upto n (c_in c) [] in
+               let out := if c_server c then mask_bytes (c_key c) (rpos s) p else p in
+               let pos := if c_server c then N.land (rpos s + lenN p) 3 else rpos s in
+               Ok (mkRd (set_rem (set_in c rest) (c_rem c - Z.of_N (lenN p))) pos, out, None)
+             end
+      else if c_final c then Ok (s, [], Some None)
+      else
+        match advance_frame fixed c with
+        | MPanic site => Panic site
+        | MErr c e => mr_read f fixed want (mkRd (set_err c (Some e)) (rpos s))
+        | MOk c t =>
+          let pos := if c_server c then 0%N else rpos s in          (* step 4: if mask { c.readMaskPos = 0 } *)
+          if is_data t then mr_read f fixed want (mkRd (set_err c (Some EInternal)) pos)
+          else mr_read f fixed want (mkRd c pos)
+        end
+    end
+  end.
+
+(* Read calls with the buffer sizes of [sizes] (cycled) until io.EOF or an error; one chunk per call *)
+Fixpoint read_chunks (fuel : nat) (fixed : bool) (sizes all : list N) (s : rd) (acc : list bytes)
+  : res (rd * (list bytes + rerr)) :=
+  match fuel with
+  | O => Err 99
+  | S f =>
+    let (want, sizes') := match sizes with w :: t => (w, t) | [] => match all with w :: t => (w, t) | [] => (1%N, []) end end in
+    let* (sr, st) := mr_read (S (S (length (c_in (rc s))))) fixed want s in
+    let (s', chunk) := sr in
+    match st with
+    | None => read_chunks f fixed sizes' all s' (chunk :: acc)
+    | Some None => Ok (s', inl acc)
+    | Some (Some e) => Ok (s', inr e)
+    end
+  end.
+
+Inductive presult := PMsg (t : Z) (chunks : list bytes) | PErr (e : rerr).
+
+Fixpoint partial_loop (fuel : nat) (fixed : bool) (sizes : list N) (c : conn) (acc : list presult)
+  : res (conn * list presult) :=
+  match fuel with
+  | O => Err 99
+  | S f =>
+    let nfuel := S (S (length (c_in c))) in
+    let* (c, r) := next_reader_loop nfuel fixed (set_len c 0) in
+    match r with
+    | None => let* (c, r) := next_reader_fail c in
+              match r with RErr e => Ok (c, PErr e :: acc) | RMsg _ _ => Err 98 end
+    | Some t =>
+      let* (s, r) := read_chunks ((nfuel + nfuel) * S (length sizes)) fixed sizes sizes
+                                 (mkRd c (if c_server c then 0%N else 0%N)) [] in
+      match r with
+      | inl chunks => partial_loop f fixed sizes (rc s) (PMsg t (rev' chunks) :: acc)
+      | inr e => Ok (rc s, PErr e :: acc)
+      end
+    end
+  end.
+
+Definition lib_session_partial (fixed server : bool) (limit : Z) (sizes : list N) (inp : bytes)
+  : res (list presult * list (Z * bytes)) :=
+  let* (c, rs) := partial_loop (S (length inp)) fixed sizes (new_conn server limit inp) [] in
+  Ok (rev' rs, rev' (c_out c)).
+
 (* ================================================================== RFC 6455 receiver *)
 Open Scope N_scope.
 
@@ -692,6 +778,24 @@ Definition run_c14 (c : sx) : sx :=
       match lib_session (fixed =? 1) (server =? 1) limit 0 wire with
       | Ok (rs, ws) =>
         SL [SL (map sx_result rs); SL (map (fun w => SL [SZ (fst w); SB (snd w)]) ws);
+            SL (map sx_event evs); sx_outcome o]
+      | Err _ => SL [SZ 1]
+      | Panic _ => s_panic
+      end
+    else bad_case
+  | SL [SZ fixed; SZ server; SZ limit; SZ _; SB wire; SL []; SL []; SL []; SL sizes] =>
+    (* the consumer reads every message with Read calls of the given buffer sizes (cycled):
+       (4 type (xchunk ...)) one chunk per call *)
+    if wf_bytesb wire then
+      let '(evs, o) := rfc_receive (server =? 1) limit wire in
+      let szs := map (fun x => match x with SZ z => Z.to_N z | _ => 1%N end) sizes in
+      match lib_session_partial (fixed =? 1) (server =? 1) limit szs wire with
+      | Ok (rs, ws) =>
+        SL [SL (map (fun r => match r with
+                              | PMsg t chunks => SL [SZ 4; SZ t; SL (map SB chunks)]
+                              | PErr e => sx_err e
+                              end) rs);
+            SL (map (fun w => SL [SZ (fst w); SB (snd w)]) ws);
             SL (map sx_event evs); sx_outcome o]
       | Err _ => SL [SZ 1]
       | Panic _ => s_panic
